@@ -87,21 +87,125 @@ def feed_sequence(fn):
     return [label(fn, fn.blocks[b]['term']) for b in blocks]
 
 
+PURE = (T + 'Algorithm::output_size', 'rr::rdata::tsig::TimeSigned::to_unix_time')
+
+
+def _analyzer(F, fn):
+    from qv.bounds import Analyzer
+    from rules import e5
+    S = e5.make_summary(F)
+    S.pure = set(PURE)
+    return Analyzer(fn, F, S)
+
+
+def _result_blocks(fn, ok_suffix='Result::Ok'):
+    """(blocks that build the Ok return value, blocks that build an Err return value, other definitions of _0)."""
+    oks, errs, other = [], [], []
+    for (b, i, kind, node) in fn.defs().get(0, []):
+        if fn.blocks[b]['cleanup']:
+            continue
+        if kind == 'assign' and node['rv']['k'] == 'agg' and node['rv']['def'].endswith('Result::Ok'):
+            oks.append((b, i))
+        elif kind == 'assign' and node['rv']['k'] == 'agg' and node['rv']['def'].endswith('Result::Err'):
+            errs.append((b, i))
+        else:
+            other.append((b, i))
+    return oks, errs, other
+
+
+def _decide_predicate(R, fn, A, spec, rule, key, okmsg, what):
+    """The function returns Ok exactly when `spec` (a conjunction of linear constraints over its inputs) holds:
+    at every Ok return the facts in force entail each conjunct; at every Err return they contradict the conjunction."""
+    from qv import cases
+    oks, errs, other = _result_blocks(fn)
+    if not oks or not errs or other:
+        R.bad(rule, key, fn.where(), '%s: the function does not return through Ok(..)/Err(..) aggregates (%d Ok, %d Err, %d other): shape not recognised' % (what, len(oks), len(errs), len(other)))
+        return
+    why = []
+    for (b, i) in oks:
+        ok, d = cases.decide_at(A, b, i, goals=spec)
+        if not ok:
+            why.append('Ok is returned at %s although the accepted condition is not implied (%s)' % (fn.where(b), d))
+    for (b, i) in errs:
+        ok, d = cases.decide_at(A, b, i, extra=spec, contradiction=True)
+        if not ok:
+            why.append('Err is returned at %s for an input that satisfies the accepted condition (%s)' % (fn.where(b), d))
+    R.require(not why, rule, key, fn.where(), okmsg, '%s: %s' % (what, '; '.join(why)))
+
+
+def _call_roles(F, caller, callee, classify):
+    """Role of each parameter of `callee`, decided from what the single call in `caller` passes (None if not unique)."""
+    cs = calls_in(caller, callee.gpath)
+    if len(cs) != 1:
+        return None
+    b, t = cs[0]
+    A = _analyzer(F, caller)
+    A._site = (b, None)
+    roles = {}
+    for k, a in enumerate(t['args']):
+        r = classify(A, caller, a, callee.local_ty(k + 1))
+        if r is None or r in roles:
+            return None
+        roles[r] = k + 1
+    return roles
+
+
+def check_mac_size(R, F):
+    """(c) check_mac_size returns Ok exactly for  max(10, ceil(out/2)) <= mac_size <= out  (RFC 8945 section 5.2.2.1)."""
+    from qv.bounds import le, lin, scale
+    cm = F.fn(T + 'check_mac_size')
+    vc = F.fn(T + "ReadTsigRr::<'_>::verification_core")
+
+    def classify(A, fn, a, pty):
+        if 'Algorithm' in pty:
+            return 'alg'
+        e = A.ev_op(a)
+        if e is not None and len(e) == 1:
+            atom = next(iter(e))
+            if atom.startswith('pure:Algorithm::output_size('):
+                return 'out'
+            if atom.endswith('.mac_size'):
+                return 'mac'
+        return None
+    roles = _call_roles(F, vc, cm, classify)
+    if not roles or 'mac' not in roles or not ({'alg', 'out'} & set(roles)):
+        R.bad('mac-size', T + 'check_mac_size', cm.where(), 'cannot tell which parameter of check_mac_size is the MAC size of the TSIG RR and which the algorithm / its output size from its call in verification_core: shape not recognised')
+        return
+    A = _analyzer(F, cm)
+    m = lin('L%d' % roles['mac'])
+    o = lin('L%d' % roles['out']) if 'out' in roles else lin(A.pure_atom(T + 'Algorithm::output_size', [lin('L%d' % roles['alg'])], 'usize'))
+    spec = [le(m, o), le(lin(c=10), m), le(o, scale(m, 2))]
+    _decide_predicate(R, cm, A, spec, 'mac-size', T + 'check_mac_size', 'Ok iff max(10, ceil(output/2)) <= size <= output', 'check_mac_size')
+
+
 def check_time_window(R, F):
     """check_time accepts exactly the closed window [ts - fudge, ts + fudge], computed at full width (shared with C10)."""
+    from qv.bounds import add, le, lin
     ct = F.fn(T + 'check_time')
-    oks = [b for b, bl in enumerate(ct.blocks) if not bl['cleanup'] for st in bl['stmts'] if st['k'] == 'assign' and st['rv']['k'] == 'agg' and st['rv']['def'].endswith('Result::Ok')]
-    g = paths.dom_guards(ct, oks[0], variants=False) if len(oks) == 1 else []
-    NOW, TS = 'TimeSigned::to_unix_time(arg3)', 'TimeSigned::to_unix_time(arg1)'
-    lo = 'Ge(%s,num::saturating_sub(%s,cast(arg2))) not in [0]' % (NOW, TS)
-    hi = 'Le(%s,num::saturating_add(%s,cast(arg2))) not in [0]' % (NOW, TS)
-    alt = 'Le(num::abs_diff(%s,%s),cast(arg2)) not in [0]' % (NOW, TS)
-    alt2 = 'Le(num::abs_diff(%s,%s),cast(arg2)) not in [0]' % (TS, NOW)
-    ok = (lo in g and hi in g and len(g) == 2) or g in ([alt], [alt2])
-    # the fudge is widened, never the difference narrowed
-    casts = [(st['rv']['op']['pl']['ty'], st['rv']['ty']) for bl in ct.blocks for st in bl['stmts'] if st['k'] == 'assign' and st['rv']['k'] == 'cast' and st['rv']['ck'].startswith('IntToInt') and is_place(st['rv']['op'])]
-    widen = all(a == 'u16' and b == 'u64' for a, b in casts)
-    R.require(ok and widen, 'time-window', T + 'check_time', ct.where(), 'Ok iff ts - fudge <= now <= ts + fudge (saturating, u64)', 'check_time accepts under %s with casts %s; expected the closed window [ts - fudge, ts + fudge] in u64' % (g, casts))
+    vc = F.fn(T + "ReadTsigRr::<'_>::verification_core")
+
+    def classify(A, fn, a, pty):
+        if pty == 'u16':
+            return 'fudge'
+        if 'TimeSigned' in pty and is_place(a):
+            c = fn.canon(a['pl'])
+            if not c['p'] and 1 <= c['l'] <= fn.argc and not fn.defs().get(c['l']):
+                return 'now'
+            sd = fn.single_def(c['l']) if not c['p'] else None
+            if sd and sd[2] == 'call' and callee_name(sd[3]).endswith('::time_signed'):
+                return 'ts'
+        return None
+    roles = _call_roles(F, vc, ct, classify)
+    if not roles or set(roles) != {'fudge', 'now', 'ts'}:
+        R.bad('time-window', T + 'check_time', ct.where(), 'cannot tell the parameters of check_time apart (time signed of the RR, fudge, current time) from its call in verification_core: shape not recognised')
+        return
+    A = _analyzer(F, ct)
+    conv = 'rr::rdata::tsig::TimeSigned::to_unix_time'
+    ts = lin(A.pure_atom(conv, [lin('L%d' % roles['ts'])], 'u64'))
+    now = lin(A.pure_atom(conv, [lin('L%d' % roles['now'])], 'u64'))
+    f = lin('L%d' % roles['fudge'])
+    spec = [le(ts, add(now, f)), le(now, add(ts, f))]
+    _decide_predicate(R, ct, A, spec, 'time-window', T + 'check_time', 'Ok iff ts - fudge <= now <= ts + fudge (full width)', 'check_time')
 
 
 def check(R, F):
@@ -136,14 +240,6 @@ def check(R, F):
     R.floor('digest-order', 4)
     R.floor('sign-verify', 15)
     # ---- (c)
-    cm = F.fn(T + 'check_mac_size')
-    errs = [b for b, bl in enumerate(cm.blocks) if not bl['cleanup'] for st in bl['stmts'] if st['k'] == 'assign' and st['rv']['k'] == 'agg' and st['rv']['def'].endswith('VerificationError::FormErr')]
-    conds = set()
-    for b in range(len(cm.blocks)):
-        t = cm.blocks[b]['term']
-        if t['k'] == 'switch' and not cm.blocks[b]['cleanup']:
-            conds.add(paths.show_operand(cm, t['op']))
-    want = {'Gt(cast(arg2),Algorithm::output_size(arg1))', 'Lt(cast(arg2),Ord::max(10_usize,Div(Add(Algorithm::output_size(arg1),1_usize),2_usize)))'}
-    R.require(len(errs) == 1 and conds == want, 'mac-size', T + 'check_mac_size', cm.where(), 'FormErr iff size > output or size < max(10, ceil(output/2))', 'check_mac_size tests %s, expected %s' % (sorted(conds), sorted(want)))
+    check_mac_size(R, F)
     # ---- (d)
     check_time_window(R, F)
